@@ -227,6 +227,10 @@ def run(ctx):
     calc_q_stream(ctx, ctx.n(200, 2000))
     scs = [T.gen_scenario(ctx.rng, allow_findings=False) for _ in range(ctx.n(100, 1000))]
     c06.check_scenarios(ctx, scs, oracle=oracle_steps, stream='tds-loop-stepsize')
+    # the Newton loop of one step on a real initialised system with scripted increments: a rejected step must
+    # restore x, y and f exactly; an accepted one has an increment within tol (or is a chatter acceptance)
+    from harness import c17
+    c17.step_stream(ctx, ctx.n(120, 1500))
     real_stream(ctx)
 
 
